@@ -20,15 +20,28 @@ mod serde_json {
 
     pub uninterp spec fn json_of(range: crate::ViolationRange, code: Seq<char>, message: Seq<char>, severity: crate::BlockSeverity, data: Option<Value>) -> Value;
 
-    /// `serde_json::to_value::<SimpleDiagnostic>` (generic over `T: Serialize` in the real crate)
+    /// `serde_json::to_value::<SimpleDiagnostic>` (generic over `T: Serialize` in the real crate).
+    /// TRUSTED ASSUMPTION (T-ext, serde / serde_json): the call returns `Ok` for this struct. `to_value` fails only
+    /// where `T`'s `Serialize` impl fails or a map has a key that is not a string; `SimpleDiagnostic` derives
+    /// `Serialize` over named (string) fields holding `usize` positions, two `&str`, a field-less `repr` enum and an
+    /// `Option<serde_json::Value>` (already a JSON value): none of these can fail and there is no map with a
+    /// non-string key. The value is a fixed (uninterpreted) function of the five fields (E2).
     #[verifier::external_body]
     pub fn to_value<'a>(d: crate::SimpleDiagnostic<'a>) -> (r: Result<Value>)
-        ensures r matches Ok(v) ==> v == json_of(*d.range, d.code@, d.message@, d.severity, *d.data),
+        ensures r matches Ok(v) && v == json_of(*d.range, d.code@, d.message@, d.severity, *d.data),
     { unimplemented!() }
 
-    /// `serde_json::to_writer_pretty(&mut stderr, &diagnostics)`: output is not modelled
+    /// `serde_json::to_writer_pretty(&mut stderr, &map)` (generic over `W: io::Write`, `T: ?Sized + Serialize` in the
+    /// real crate), at the two shapes `process_violations` has had: `&HashMap<String, Vec<Value>>` (after
+    /// 6239843) and `&HashMap<PathBuf, Vec<Value>>` (before). The output itself is not modelled.
+    /// TRUSTED ASSUMPTION (T-ext, serde_json `ser.rs` / serde `impl Serialize for Path`): the call fails exactly
+    /// when (a) some KEY cannot be written as the name of an object member (`JsonKey::key_serialisable`: never
+    /// for `String`; for `PathBuf` when the path is not valid Unicode: "path contains invalid UTF-8 characters"),
+    /// or (b) the writer fails (`stderr_write_ok`, uninterpreted: the world decides). The VALUES are
+    /// `serde_json::Value`s, whose serialisation cannot fail by itself.
     #[verifier::external_body]
-    pub fn to_writer_pretty<W>(w: &mut W, v: &HashMap<String, Vec<Value>>) -> (r: Result<()>)
+    pub fn to_writer_pretty<K: crate::JsonKey>(w: &mut std::io::StderrLock<'static>, v: &HashMap<K, Vec<Value>>) -> (r: Result<()>)
+        ensures r is Ok <==> crate::keys_serialisable(v@) && crate::stderr_write_ok(v@),
     { unimplemented!() }
     }
 }
